@@ -250,6 +250,90 @@ fn parts_kit(shapes: &[Box<dyn kit::Shape>], idx: usize) -> Option<Parts> {
     Some(parts)
 }
 
+/// Stream E: circuits with TWO Poseidon2 tables (KoalaBear D4 width 16 and width 32) whose rows feed
+/// each other across the tables (an exposed output of one table is an input limb / the MMCS index
+/// accumulator of a row of the other), compiled and key-generated with the per-configuration AIR
+/// builders. Compile-only: key generation does not depend on an execution.
+fn parts_two_tables(seed: u64, idx: usize) -> Option<Parts> {
+    use p3_circuit_prover::batch_stark_prover::poseidon2_air_builders_for_configs;
+    use p3_circuit_prover::config::KoalaBearConfig;
+    use p3_koala_bear::{KoalaBear, default_koalabear_poseidon2_16, default_koalabear_poseidon2_32};
+    use p3_poseidon2_circuit_air::{KoalaBearD4Width16, KoalaBearD4Width32};
+    type KE = BinomialExtensionField<KoalaBear, 4>;
+    const W16: Poseidon2Config = Poseidon2Config::KOALA_BEAR_D4_W16;
+    const W32: Poseidon2Config = Poseidon2Config::KOALA_BEAR_D4_W32;
+    let mut rng = case_rng(seed, "c18-two-tables", idx as u64);
+    let mut b = CircuitBuilder::<KE>::new();
+    b.enable_poseidon2_perm::<KoalaBearD4Width16, _>(generate_poseidon2_trace::<KE, KoalaBearD4Width16>, default_koalabear_poseidon2_16());
+    b.enable_poseidon2_perm_width_32::<KoalaBearD4Width32, _>(generate_poseidon2_trace::<KE, KoalaBearD4Width32>, default_koalabear_poseidon2_32());
+    let mut pool16: Vec<p3_circuit::ExprId> = vec![];
+    let mut pool32: Vec<p3_circuit::ExprId> = vec![];
+    let n_rows = rng.random_range(2..7usize);
+    for _ in 0..n_rows {
+        let wide = rng.random_range(0..2u32) == 0;
+        let cfg = if wide { W32 } else { W16 };
+        // inputs: fresh publics or exposed outputs of the OTHER table
+        let other: Vec<p3_circuit::ExprId> = if wide { pool16.clone() } else { pool32.clone() };
+        let inputs: Vec<Option<p3_circuit::ExprId>> = (0..cfg.width_ext())
+            .map(|_| Some(if !other.is_empty() && rng.random_range(0..3u32) == 0 { other[rng.random_range(0..other.len())] } else { b.public_input() }))
+            .collect();
+        let merkle = !wide && rng.random_range(0..2u32) == 0;
+        let bit = if merkle { Some(b.alloc_const(<KE as p3_field::PrimeCharacteristicRing>::ONE, "bit")) } else { None };
+        let index = if merkle && rng.random_range(0..2u32) == 0 {
+            Some(if !other.is_empty() && rng.random_range(0..2u32) == 0 { other[rng.random_range(0..other.len())] } else { b.public_input() })
+        } else {
+            None
+        };
+        let n_exp = rng.random_range(0..=cfg.rate_ext().min(2));
+        let out_ctl: Vec<bool> = (0..cfg.rate_ext()).map(|j| j < n_exp).collect();
+        let Ok((_, outs)) = b.add_poseidon2_perm(&Poseidon2PermCall {
+            config: cfg,
+            new_start: true,
+            merkle_path: merkle,
+            mmcs_bit: bit,
+            mmcs_bit2: None,
+            inputs,
+            out_ctl,
+            return_all_outputs: false,
+            mmcs_index_sum: index,
+        }) else {
+            return None;
+        };
+        for o in outs.into_iter().flatten() {
+            if wide { pool32.push(o) } else { pool16.push(o) }
+        }
+    }
+    // readers for the exposed outputs
+    let all: Vec<p3_circuit::ExprId> = pool16.iter().chain(pool32.iter()).copied().collect();
+    for w in all.windows(2) {
+        let _ = b.mul(w[0], w[1]);
+    }
+    let circuit = guarded(|| b.build()).ok()?.ok()?;
+    let mut parts = circuit_parts(&circuit);
+    parts.extend(prep_parts::<KE, 4>(&circuit));
+    let packing = if rng.random_range(0..2u32) == 0 { TablePacking::default().with_min_trace_height(64) } else { TablePacking::new(rng.random_range(1..3), rng.random_range(1..4)) };
+    let pre: Vec<Box<dyn NpoPreprocessor<KoalaBear>>> = vec![poseidon2_preprocessor::<KoalaBear>()];
+    let airb = poseidon2_air_builders_for_configs::<KoalaBearConfig, 4>(vec![W16, W32]);
+    match guarded(|| get_airs_and_degrees_with_prep::<KoalaBearConfig, KE, 4>(&circuit, &packing, &pre, &airb, ConstraintProfile::Standard)) {
+        Ok(Ok((ad, prim, np))) => {
+            let kinds: Vec<(String, usize)> = ad.iter().map(|(a, d)| (air_kind(a), *d)).collect();
+            parts.push(("keygen.air_kinds_degrees_order".into(), h(&format!("{kinds:?}"))));
+            parts.push(("keygen.primitive_columns".into(), h(&format!("{prim:?}"))));
+            let mut npv: Vec<(String, String)> = np.iter().map(|(k, v)| (format!("{k:?}"), format!("{v:?}"))).collect();
+            npv.sort();
+            parts.push(("keygen.non_primitive_columns".into(), h(&format!("{npv:?}"))));
+            let (airs, degs): (Vec<_>, Vec<usize>) = ad.into_iter().unzip();
+            match guarded(|| ProverData::from_airs_and_degrees(&config::koala_bear(), &airs, &degs)) {
+                Ok(pd) => parts.push(("keygen.commitment".into(), h(&commitment_json(&pd.common)))),
+                Err(p) => parts.push(("keygen.commitment.panic".into(), h(&panic_site(&p)))),
+            }
+        }
+        Ok(Err(e)) => parts.push(("keygen.error".into(), h(&format!("{e:?}")))),
+        Err(p) => parts.push(("keygen.panic".into(), h(&panic_site(&p)))),
+    }
+    Some(parts)
+}
+
 /// Stream B: BabyBear D4 circuit with Poseidon2 rows, recompose rows, many connects and tags.
 fn parts_npo(seed: u64, idx: usize) -> Option<Parts> {
     let mut rng = case_rng(seed, "c18-npo", idx as u64);
@@ -350,6 +434,7 @@ fn parts_job(seed: u64, key: &str, shapes: &[Box<dyn kit::Shape>]) -> Option<Par
             with_cfg!(name, parts_chal, seed, idx)
         }
         "k" => parts_kit(shapes, idx),
+        "t" => parts_two_tables(seed, idx),
         _ => None,
     }
 }
@@ -366,7 +451,8 @@ fn skip_in_this_build(key: &str, shapes: &[Box<dyn kit::Shape>]) -> bool {
 }
 
 fn job_keys(n: usize, nchal: usize, nkit: usize) -> Vec<String> {
-    (0..n).map(|i| format!("g{i}")).chain((0..nchal).map(|i| format!("c{i}"))).chain((0..nkit).map(|i| format!("k{i}"))).collect()
+    // the two-table stream has one case per 16 generated programs
+    (0..n).map(|i| format!("g{i}")).chain((0..nchal).map(|i| format!("c{i}"))).chain((0..nkit).map(|i| format!("k{i}"))).chain((0..n / 16).map(|i| format!("t{i}"))).collect()
 }
 
 /// Iteration order of a fresh map with the code's key type: evidence that hash seeds vary.
@@ -562,6 +648,7 @@ fn main() {
             "g" if key[1..].parse::<usize>().map_or(false, |i| i % 5 == 4) => "npo-rich",
             "g" => "generated",
             "c" => "challenger-circuit",
+            "t" => "two-poseidon-tables",
             _ => "verifier-circuit",
         };
         let Some(Some(first)) = runs.first() else {
